@@ -97,6 +97,9 @@ pub enum Error {
     #[error("unsupported compressor type {0} - try enabling the feature flag for it")]
     UnsupportedCompressorType(String),
 
+    #[error("unsupported compression level - {0}")]
+    UnsupportedCompressionLevel(String),
+
     #[error("unsupported digest algorithm {0:?}")]
     UnsupportedDigestAlgorithm(DigestAlgorithm),
 
